@@ -1309,3 +1309,91 @@ def rule_axis(db, chk, cfg, rule="AXIS.homogeneous", names=("GetSegmentIntersect
                 chk.violation(rule, f.qual, "%s|%s" % (f.sig[:30], e.get("line")), "%s: %s - the two axes are mixed (as a real-number formula the result may even be unchanged: a local origin "
                               "taken from the other axis only costs precision, thousands of units for coordinates near 2^39)" % (f.qual, why), where(e), cfg=cfg)
     return n
+
+
+# ---------------------------------------------------------------------------
+# ORIGIN.convex: what is subtracted from a coordinate before the conversion to double lies among the coordinates
+# ---------------------------------------------------------------------------
+
+def rule_origin_convex(db, chk, cfg, rule="ORIGIN.convex", names=("GetSegmentIntersectPt",)):
+    """The intersection routines convert *differences* of int64 coordinates to double, so that only small numbers are rounded.  That
+    works when the subtrahend lies among the input coordinates: another coordinate, a min / max / conditional choice of such, or the
+    mean of two of them (the high-precision variant's local origin: the middle of the overlap of the two bounding boxes).  A
+    subtrahend built any other way - half the *width* of the overlap, say - is algebraically harmless (the origin cancels, so
+    POLY.intersect is silent) but can be 2^58 away from the data, and the doubles then carry the error into the crossing."""
+    n = 0
+    for name in names:
+        for f in _insts(db, name):
+            par = {}
+            for x in walk(f.body):
+                for c in kids(x):
+                    if isinstance(c, dict):
+                        par[id(c)] = x
+            env = {}
+            pids = {p.get("id") for p in f.params}
+
+            def cls(e):
+                while isinstance(e, dict) and e.get("kind") in _CASTS and kids(e):
+                    e = kids(e)[0]
+                if not isinstance(e, dict):
+                    return False
+                k = e.get("kind")
+                if k == "MemberExpr" and e.get("name") in ("x", "y"):
+                    b = kids(e)[0] if kids(e) else {}
+                    while isinstance(b, dict) and b.get("kind") in _CASTS and kids(b):
+                        b = kids(b)[0]
+                    return b.get("kind") == "DeclRefExpr" and b.get("referencedDecl", {}).get("id") in pids
+                if k == "DeclRefExpr":
+                    return env.get(e.get("referencedDecl", {}).get("id"), False)
+                if k == "ConditionalOperator":
+                    return cls(kids(e)[1]) and cls(kids(e)[2])
+                if k in ("CallExpr",) and db.callee(e)[0] in ("min", "max"):
+                    a = db.call_args(e)
+                    return len(a) == 2 and cls(a[0]) and cls(a[1])
+                if k == "BinaryOperator" and e.get("opcode") in (">>", "/"):
+                    l, r = kids(e)
+                    rr = r
+                    while isinstance(rr, dict) and rr.get("kind") in _CASTS and kids(rr):
+                        rr = kids(rr)[0]
+                    half = (e["opcode"] == ">>" and rr.get("kind") == "IntegerLiteral" and str(rr.get("value")) == "1") or \
+                           (e["opcode"] == "/" and rr.get("kind") in ("IntegerLiteral", "FloatingLiteral") and float(rr.get("value")) == 2.0)
+                    ll = l
+                    while isinstance(ll, dict) and ll.get("kind") in _CASTS and kids(ll):
+                        ll = kids(ll)[0]
+                    return bool(half and ll.get("kind") == "BinaryOperator" and ll.get("opcode") == "+" and cls(kids(ll)[0]) and cls(kids(ll)[1]))
+                return False
+            for x in walk(f.body):
+                if x.get("kind") == "VarDecl" and x.get("id") not in pids:
+                    init = [c for c in kids(x) if isinstance(c, dict) and c.get("kind")]
+                    env[x.get("id")] = cls(init[-1]) if init else False
+            sites = bad = 0
+            first = None
+            for x in walk(f.body):
+                if x.get("kind") == "BinaryOperator" and x.get("opcode") == "-":
+                    l, r = kids(x)
+                    ll = l
+                    while isinstance(ll, dict) and ll.get("kind") in _CASTS and kids(ll):
+                        ll = kids(ll)[0]
+                    if not (ll.get("kind") == "MemberExpr" and ll.get("name") in ("x", "y") and cls(ll)):
+                        continue
+                    # converted to double?
+                    p = par.get(id(x))
+                    to_double = False
+                    while p is not None and p.get("kind") in _CASTS:
+                        if "double" in (qt(p) or ""):
+                            to_double = True
+                            break
+                        p = par.get(id(p))
+                    if not to_double:
+                        continue
+                    sites += 1
+                    if not cls(r):
+                        bad += 1
+                        first = first or x
+            n += 1
+            chk.instance(rule, {"function": f.qual, "sig": f.sig[:60], "differences_converted_to_double": sites, "cfg": cfg}, ok=not bad)
+            if bad:
+                chk.violation(rule, f.qual, "%s|%s" % (f.sig[:30], first.get("line")), "%s: `%s` is converted to double, but its subtrahend is not one of the input coordinates, a min / max "
+                              "choice or the mean of two of them - it need not lie anywhere near the data, and for far-away coordinates the double loses the crossing's low bits "
+                              "(the formula stays algebraically right: the origin cancels)" % (f.qual, canon(first)[:70]), where(first), cfg=cfg)
+    return n
